@@ -84,7 +84,9 @@ func runOne(ctx context.Context, sp solverSpec, file string, timeoutS int) (stat
 }
 
 // solve decides a query with the portfolio. timeoutS is the per-solver limit.
-func solve(query string, timeoutS int) SolveResult {
+func solve(query string, timeoutS int) SolveResult { return solveOpt(query, timeoutS, true) }
+
+func solveOpt(query string, timeoutS int, busyRetry bool) SolveResult {
 	sum := sha256.Sum256([]byte(query))
 	key := hex.EncodeToString(sum[:])
 	cpath := filepath.Join(cacheDir, key[:2], key)
@@ -150,7 +152,7 @@ func solve(query string, timeoutS int) SolveResult {
 		if !decided && nErr == len(solvers) {
 			res = errRes
 		}
-		if res.Status == "unknown" && systemBusy() {
+		if res.Status == "unknown" && busyRetry && systemBusy() {
 			// wall-clock limits are unfair when the machine is oversubscribed: one more race with a longer limit
 			ctx2, cancel2 := context.WithCancel(context.Background())
 			ch2 := make(chan ans, len(solvers))
